@@ -102,7 +102,7 @@ func (x *Exec) diverseModels(rng *rand.Rand, k int) []map[string]interface{} {
 			case r == 8:
 				return Eq(t, BVi(int64(x.in.ID("")), IDW))
 			default:
-				return Ule(BVi(UnkBase, IDW), t)
+				return Eq(t, BVi(int64(UnkBase+rng.Intn(600)), IDW))
 			}
 		case "int":
 			switch rng.Intn(4) {
